@@ -220,8 +220,8 @@ type spec struct {
 	// seeded (ML-KEM / X-Wing encapsulation uses the runtime's DRBG): only the length is put into
 	// the line
 	rndIn map[int]bool
-	mk        func() (*inst, error)
-	lays      []layout // nil = layouts()
+	mk    func() (*inst, error)
+	lays  []layout // nil = layouts()
 }
 
 type engine struct {
